@@ -17,7 +17,7 @@ HOLDERS = ["buffer", "delay", "rate_limit", "map_async", "timed_window", "partit
 @st.composite
 def md_case(draw, tier="quick", kinds=ALL_KINDS, first=HOLDERS, faults=False, max_nodes=5,
             max_actions=30, modes=("sync", "fut", "coro", "fut", "aw"), max_entries=2, none_ok=False,
-            md_values=(1, 1, 1, 2, 3, 0), min_actions=1):
+            md_values=(1, 1, 1, 2, 3, 0, 4), min_actions=1):
     spec = draw(specs.pipeline_spec(kinds=kinds, max_nodes=max_nodes, max_entries=max_entries,
                                     feedback=False, force_first=draw(st.sampled_from(first))))
     spec = draw(c02.with_sinks(spec))
